@@ -170,7 +170,7 @@ func (r *Reader) parseSlides() error {
 	// presentation relationships); file names carry no order and a package may
 	// hold slide parts that are not part of the show. Use the declared order
 	// whenever it can be resolved.
-	if declared := r.declaredSlideOrder(slideFiles); len(declared) > 0 {
+	if declared := r.declaredSlideOrder(); len(declared) > 0 {
 		slideFiles = declared
 	}
 
@@ -199,9 +199,10 @@ func (r *Reader) parseSlides() error {
 }
 
 // declaredSlideOrder returns the slide parts in the order of the presentation's
-// slide list, restricted to parts that exist in the package. It returns nil if the
-// slide list or the relationships are missing.
-func (r *Reader) declaredSlideOrder(existing []string) []string {
+// slide list, restricted to parts that exist in the package - under whatever
+// name: the relationship target names the part, not a file-name pattern. It
+// returns nil if the slide list or the relationships are missing.
+func (r *Reader) declaredSlideOrder() []string {
 	if r.presentation == nil || r.presentation.SlideIdList == nil || r.presRels == nil {
 		return nil
 	}
@@ -209,9 +210,9 @@ func (r *Reader) declaredSlideOrder(existing []string) []string {
 	for _, rel := range r.presRels.Relationship {
 		targets[rel.ID] = rel.Target
 	}
-	present := make(map[string]bool, len(existing))
-	for _, name := range existing {
-		present[name] = true
+	present := make(map[string]bool, len(r.zipReader.File))
+	for _, f := range r.zipReader.File {
+		present[f.Name] = true
 	}
 	var ordered []string
 	for _, id := range r.presentation.SlideIdList.SlideId {
